@@ -81,6 +81,8 @@ impl Regions {
         let file_len = self.file_len()?;
         if file_len < len {
             self.file.set_len(len as u64)?;
+            #[cfg(feature = "verif_hooks")]
+            crate::verif::io(|| crate::verif::IoEvent::SetLen { file: crate::verif::FileId::Regions, len });
             self.mmap = create_mmap(&self.file)?;
         }
         Ok(())
@@ -175,18 +177,24 @@ impl Regions {
 
     /// Schedules metadata writeback. Caller must follow with `sync_data()`.
     pub(crate) fn flush(&self) -> Result<()> {
+        #[cfg(feature = "verif_hooks")]
+        crate::verif::io(|| crate::verif::IoEvent::FlushAsyncAll { file: crate::verif::FileId::Regions });
         self.mmap.flush_async()?;
         Ok(())
     }
 
     pub(crate) fn sync_data(&self) -> Result<()> {
         self.file.sync_data()?;
+        #[cfg(feature = "verif_hooks")]
+        crate::verif::io(|| crate::verif::IoEvent::Sync { file: crate::verif::FileId::Regions });
         Ok(())
     }
 
     pub(crate) fn write_at(&self, index: usize, data: &[u8]) {
         debug_assert_eq!(data.len(), SIZE_OF_REGION_METADATA);
         let offset = index * SIZE_OF_REGION_METADATA;
+        #[cfg(feature = "verif_hooks")]
+        crate::verif::io(|| crate::verif::IoEvent::Write { file: crate::verif::FileId::Regions, offset, data: data.to_vec() });
         write_to_mmap(&self.mmap, offset, data);
     }
 
